@@ -113,7 +113,8 @@ def cases(draw, modes):
         case["initial"] = {
             "kind": uni["kind"], "labels": labels, "edges": edges,
             "weights": ([draw(st.integers(1, 5)) for _ in edges]
-                        if draw(st.booleans()) else None)}
+                        if draw(st.booleans()) else None),
+            "all_nodes": draw(st.sampled_from([True, True, False]))}
         top = max(len(e) for e in edges)
     if mode in ("sequences", "deg_only", "dim_only"):
         realisable = draw(st.booleans())
@@ -172,7 +173,9 @@ def build_initial(case):
     else:
         h = Hypergraph(edge_list=edges)
     used = {x for e in edges for x in e}
-    h.add_nodes([x for x in labels if x not in used])
+    if ini.get("all_nodes", True):
+        h.add_nodes([x for x in labels if x not in used])
+    # else: the initial hypergraph has fewer nodes than the model has rows (labels with gaps)
     return h, [frozenset(e) for e in edges]
 
 
